@@ -362,6 +362,9 @@ func (ex *Exec) equals(t types.Type, x, y Value) *Term {
 		panic(Unsupported{"comparison of opaque value " + xv.what})
 	case unit:
 		return termTrue
+	case RTypeV:
+		yv, ok := y.(RTypeV)
+		return Bool(ok && types.Identical(xv.t, yv.t))
 	}
 	panic(Unsupported{fmt.Sprintf("equals on %T", x)})
 }
@@ -769,6 +772,10 @@ func (ex *Exec) concKey(k Value) (string, bool) {
 		if k.t == nil {
 			return fmt.Sprintf("f%v", math.Float64bits(k.f)), true
 		}
+	case RTypeV:
+		return "T" + types.TypeString(k.t, nil), true
+	case SliceV:
+		return fmt.Sprintf("s%p:%d:%d", k.c, k.off, k.ln), true
 	}
 	return "", false
 }
